@@ -7,6 +7,8 @@ COMMON_NOTE=("Trusted base: gosym (the SSA symbolic interpreter under /verif/gos
  "Bounded: only the shapes/ranges written in the harness sources are covered. Dependency code is replaced by the stubs listed in the evidence "
  "(amino codec as an injective opaque token, hashes/time formatting/logging as stated in DESIGN.md §3.6). ")
 CLAIMED={
+ "C17": dict(text="Bounded symbolic execution of the gov handler (MsgChangeParam, MsgDAOTransfer), Keeper.ModifyParam, VerifyACL, ACL.GetOwner, Subspace.Update/Set/checkType and the DAO transfer/burn paths with the real auth keeper: sender in {owner of the key, owner of another key, stranger, nil}, parameter keys of two subspaces including the ACL itself and the DAO owner, symbolic new values, an ACL take-over attempt, a wrong-typed value, an ownership hand-over followed by a change attempt of old/new owner, DAO balance and amount symbolic (including more than the balance, transfer to the DAO account itself).",
+   note="Bounds: 6 parameters in 2 subspaces (auth, gov), 3 senders + nil, one or two messages. Parameter values travel as opaque codec tokens: JSON syntax of values is not modelled (a value of a different type is treated as a decode error). MsgUpgrade and os.Exit paths for unknown subspaces are not covered (unreachable for non-empty senders).", ref="§4 C17"),
  "C18": dict(text="Bounded symbolic execution of the real types/int.go, uint.go, decimal.go, staking.go: every assertion (exact result, rounding rule stated without division, panic-iff-out-of-range, operands unchanged) is decided by the solver for ALL operand values in the full 255/256/315-bit range; multiplicative operations with one operand from a 16/18-element boundary set (linear), plus both-symbolic bug-hunting queries. Counterexamples are replayed natively before being reported.",
    note="Not covered: decimal text conversion (String/NewDecFromStr/ParseCoin), Coins set algebra (planned), products/quotients of two arbitrary operands beyond bug hunting. Known findings: Dec.Quo / Dec.QuoRoundUp double rounding (known_findings.txt).", ref="§4 C18"),
  "C16": dict(text="Bounded symbolic execution of store/types/utils.go (PrefixEndBytes, InclusiveEndBytes), store/prefix, store/gaskv and both gas meters over a fake leaf store: prefix bytes, keys, iterator bounds, meter state (consumed, limit) and cost tables are symbolic; the solver decides isolation, exact gas, the exact out-of-gas/overflow point and result transparency for every value inside the bounds.",
